@@ -22,7 +22,9 @@
 //! representable later (Sleep::far_future); a reset target >= 2^61 is SimTime::MAX. SimTime::MAX is printed as 2^62 - 1.
 //! A task spawned by a message (start > 0) that sends at once is a message event whose handler sends on a channel.
 //!
-//! Output := (len log.. fin)*  ok  end_time  snapshot*
+//! Output := (len log.. fin)*  ok  end_time  snapshot*  [9 t m id]
+//!   `9 t m id` (only when des has the hook ModuleRef::verif_timer_entry_ids, cfg(des_timer_ids)): at the sample taken
+//!   at instant t the driver of module m held two timer entries with the same id -- removal by id is ambiguous then
 //!   snapshot := t m #slots (deadline #entries)* flag next_wakeup: what the verification hook
 //!   ModuleRef::verif_timer_snapshot reports of each module's timer driver, sampled between events (after
 //!   start-up and after every dispatched event; a module that does not exist is reported as an empty driver)
@@ -30,6 +32,7 @@
 //!   select -> now branch (2 = unbiased tie); tick -> now tick_instant; hand-over -> now;
 //!   receive+await -> instant of the receive, instant the received Sleep completed
 //!   ok = Runtime::run returned Ok (no JoinError NotFinished); end_time = SimTime::now() in at_sim_end
+#![allow(unexpected_cfgs)]
 use des::prelude::*;
 use des::time::{interval, sleep, sleep_until, timeout, MissedTickBehavior, Sleep};
 use std::collections::VecDeque;
@@ -495,11 +498,31 @@ fn run_line(nums: &[u64]) -> Vec<u64> {
             }
         }
     };
+    // entry ids of one driver must be pairwise distinct (first duplicate found is reported)
+    let mut dup: Option<[u64; 3]> = None;
+    #[allow(unused_mut, unused_variables)]
+    let mut check_ids = |refs: &Vec<ModuleRef>, dup: &mut Option<[u64; 3]>| {
+        #[cfg(des_timer_ids)]
+        for (m, r) in refs.iter().enumerate() {
+            if dup.is_some() {
+                break;
+            }
+            if let Some(slots) = r.verif_timer_entry_ids() {
+                let mut ids: Vec<usize> = slots.into_iter().flat_map(|(_, v)| v).collect();
+                ids.sort_unstable();
+                if let Some(w) = ids.windows(2).find(|w| w[0] == w[1]) {
+                    *dup = Some([now(), m as u64, (w[0] as u64).min(TMAX)]);
+                }
+            }
+        }
+    };
     rt.start();
     sample(&refs);
+    check_ids(&refs, &mut dup);
     while rt.num_events_remaining() > 0 {
         rt.dispatch_n_events(1);
         sample(&refs);
+        check_ids(&refs, &mut dup);
     }
     let res = rt.finish();
 
@@ -514,5 +537,9 @@ fn run_line(nums: &[u64]) -> Vec<u64> {
     out.push(res.is_ok() as u64);
     out.push(END.load(SeqCst));
     out.extend(snaps);
+    if let Some(d) = dup {
+        out.push(9);
+        out.extend(d);
+    }
     out
 }
